@@ -1,5 +1,6 @@
 """C02 No double run; retry accounting (engine E1, exploration). See DESIGN.md section 7."""
-from .common import generic_run, FinalDbMonitor, launched_instances
+from .common import (
+    generic_run, FinalDbMonitor, launched_instances, reload_monitors)
 
 PID = 'C02'
 ENGINE = 'E1'
@@ -64,5 +65,6 @@ def run(params):
     return generic_run(PID, params, knobs=KNOBS, policy='any',
                        plan_kw={'p_fail': 0.5, 'p_subfail': 0.5,
                                 'p_vanish': 0.2, 'p_subvanish': 0.4},
-                       monitors=[FinalDbMonitor()], end_check=end_check,
-                       probe_key='retry_ran')
+                       monitors=[FinalDbMonitor()] + reload_monitors(
+                           params['seed'], 'c02'),
+                       end_check=end_check, probe_key='retry_ran')
